@@ -384,6 +384,17 @@ theorem bgInv_step (load : Text → Res) (σ : St Text Res) (e : Ev Text) (u : N
       · intro ho
         simp only [Bg.upd, hu, if_false] at ho ⊢
         exact h ho
+  | skip u' i =>
+    simp only [step]
+    split
+    · exact h
+    · by_cases hu : u = u'
+      · subst hu
+        intro ho
+        simp [Bg.upd] at ho
+      · intro ho
+        simp only [Bg.upd, hu, if_false] at ho ⊢
+        exact h ho
 
 theorem bgInv_run (load : Text → Res) (es : List (Ev Text)) (u : Nat) :
     BgInv load (run load es) u := by
@@ -397,8 +408,9 @@ theorem bgInv_run (load : Text → Res) (es : List (Ev Text)) (u : Nat) :
 /-- **Responses are a function of the document state — guarded.**  For every history of
     opens / changes and every scheduling of the background tasks (any order of completion),
     for every handler `h` and every loader: if the requested document is settled (no task of
-    it in flight, and no task of it was started while another one was in flight) the response
-    equals the response computed from the document text alone. -/
+    it in flight, and since the last task started on the idle document none was started while
+    another one was in flight and none ended without storing) the response equals the response
+    computed from the document text alone. -/
 theorem response_is_function_of_state_partial (load : Text → Res) (h : Text → Option Res → Resp)
     (es : List (Ev Text)) (u : Nat) (hs : settled (run load es) u = true) :
     respond h (run load es) u = specRespond load h (run load es) u := by
@@ -431,6 +443,17 @@ theorem stale_after_quiescence_counterexample :
     let load := fun t : Nat => t + 100
     let h := fun (t : Nat) (r : Option Nat) => (t, r)
     let es : List (Ev Nat) := [.change 0 1, .change 0 2, .finish 0 1, .finish 0 0]
+    (run load es).pending 0 = [] ∧
+    respond h (run load es) 0 = some (2, some 101) ∧
+    specRespond load h (run load es) 0 = some (2, some 102) := by
+  decide
+
+/-- Known finding `stale-resolved`, third form: the task of the current text found diagnostics
+    switched off and returned before the load. -/
+theorem stale_after_skip_counterexample :
+    let load := fun t : Nat => t + 100
+    let h := fun (t : Nat) (r : Option Nat) => (t, r)
+    let es : List (Ev Nat) := [.change 0 1, .finish 0 0, .change 0 2, .skip 0 0]
     (run load es).pending 0 = [] ∧
     respond h (run load es) 0 = some (2, some 101) ∧
     specRespond load h (run load es) 0 = some (2, some 102) := by
